@@ -316,4 +316,9 @@ def r5(ctx):
     ctx.check(len(cs) == 1 and norm(cs[0].args[0]) == ch.params[1], "C18.R5", ch, "Channel.dataReceived forwards every raw read to the handler")
 
 
-RULES = [("C18.R1", r1), ("C18.R2", r2), ("C18.R3", r3), ("C18.R4", r4), ("C18.R5", r5)]
+def r_idioms(ctx):
+    from .common import repo_idioms
+    repo_idioms(ctx, "C18.R6", ('http_server',))
+
+
+RULES = [("C18.R1", r1), ("C18.R2", r2), ("C18.R3", r3), ("C18.R4", r4), ("C18.R5", r5), ("C18.R6", r_idioms)]
